@@ -29,6 +29,7 @@ UNIT = "syn"
 PINNED = [
     "format_spec_roundtrip", "render_writes_representation",
     "slice_is_token_text", "line_offsets_spec", "slice_refuted", "slice_panics",
+    "gen_skip_test_spec", "skip_keeps_outside",
 ]
 
 # FIXED in /repo (a fixed entry suppresses nothing; the witnesses stay in corpus/C11 and a recurrence is a VIOLATION):
@@ -160,6 +161,89 @@ def line_variants(text, rng):
         if t2 != text:
             out.append(("tabs", t2))
     return [(k, v) for k, v in out if v != text]
+
+
+GLUE_BEFORE = ["", " ", "   ", "\t"]
+
+
+def glue_variants(text, rng, n):
+    """comment glue: the white space between a token and a following comment (0 / 1 / 3 spaces / a tab before the
+    `#`) and after an inline comment (0 / 1 space).  Leading indentation is never touched."""
+    if "#" not in text:
+        return []
+    out = []
+    for _ in range(n):
+        parts = re.split(r"(#-.*?-#)", text)          # inline comments (single-line ones) as units
+        res = []
+        for k, seg in enumerate(parts):
+            if k % 2 == 1:
+                res.append(seg)
+                continue
+            # white space after the inline comment that precedes this segment
+            if k > 0:
+                seg = re.sub(r"^[ \t]+(?=\S)", lambda m: rng.choice(["", " "]), seg)
+            # an end-of-line comment in this segment: `<token><white space># ...`
+            seg = re.sub(r"(?<=\S)[ \t]+#(?![\[-])", lambda m: rng.choice(GLUE_BEFORE) + "#", seg)
+            # white space before the inline comment that follows this segment (not the line's indentation)
+            if k + 1 < len(parts):
+                seg = re.sub(r"(?<=\S)[ \t]+$", lambda m: rng.choice(GLUE_BEFORE), seg)
+            res.append(seg)
+        t = "".join(res)
+        if t != text and t not in out:
+            out.append(t)
+    return out
+
+
+SKIP_NODES = [
+    # name, lines before, the node under #[fmt:skip] (last line gets the adjacent comment), lines after, indent of the node
+    ("statement", [], ["x  =  [1,2]"], ["print x"], ""),
+    ("map-entry", ["m ="], ["  b:       123"], ["  c:   7", "print m.b + m.c"], "  "),
+    ("map-entry-first", ["m ="], ["  a:   [1,  2]"], ["  c: 7", "print m.c"], "  "),
+    ("list-element", ["l = ["], ["  2  +  3,"], ["  4", "]", "print l"], "  "),
+    ("braced-map-entry", ["m = {"], ["  b:   2,"], ["  c: 3", "}", "print m.c"], "  "),
+    ("call-argument", ["f = |a, b| a + b", "r = f("], ["  1  +  1,"], ["  2", ")", "print r"], "  "),
+    ("nested-block-statement", ["if true"], ["  y  =  1"], ["  print y"], "  "),
+    ("nested-block-last", ["if true", "  print 0"], ["  y  =  [1,2]"], ["print 1"], "  "),
+    ("function-body", ["f = |a|"], ["  a  +  1"], ["print f 1"], "  "),
+    ("function", [], ["f = |a|   a+1"], ["print f 1"], ""),
+    ("function-block", [], ["f = |a|", "  b  =  a", "  b+1"], ["print f 1"], ""),
+    ("chain", ["d = [3, 1, 2]"], ["r = d.iter( ).count( )"], ["print r"], ""),
+    ("match-arm", ["x = match 1"], ["  1   then  'a'"], ["  else 'b'", "print x"], "  "),
+    ("switch-arm", ["x = switch"], ["  1 == 1   then  'a'"], ["  else 'b'", "print x"], "  "),
+    ("for-loop", [], ["for i in 0..2", "  print  i"], ["print 9"], ""),
+    ("string", [], ["s  =  'a {1+1} b'"], ["print s"], ""),
+    ("number", [], ["n  =  0x1f"], ["print n"], ""),
+    ("nested-skip", ["f = ||", "  #[fmt:skip]", "  a  =  1"], ["  b  =  a"], ["  b", "print f()"], "  "),
+]
+SKIP_COMMENTS = ["# note", "#- why -#", "#-- n --#" if False else "# a # b"]
+
+
+def skip_family(quick, rng):
+    """`#[fmt:skip]` on every node kind x a comment inside / glued directly after / after white space / on the next line"""
+    out = []
+    for name, pre, node, post, ind in SKIP_NODES:
+        base = pre + [ind + "#[fmt:skip]"] + node + post
+        out.append((f"skip:{name}/plain", "\n".join(base) + "\n"))
+        for cm in SKIP_COMMENTS:
+            for glue in GLUE_BEFORE:
+                n2 = node[:-1] + [node[-1] + glue + cm]
+                out.append((f"skip:{name}/after{len(glue)}{'t' if glue == chr(9) else ''}", "\n".join(pre + [ind + "#[fmt:skip]"] + n2 + post) + "\n"))
+            # on the following line, and before the directive
+            out.append((f"skip:{name}/nextline", "\n".join(pre + [ind + "#[fmt:skip]"] + node + [ind + cm] + post) + "\n"))
+            out.append((f"skip:{name}/before", "\n".join(pre + [ind + cm, ind + "#[fmt:skip]"] + node + post) + "\n"))
+        # an inline comment INSIDE the skipped node, at its first run of two spaces
+        if "  " in node[-1].strip():
+            lead = len(node[-1]) - len(node[-1].lstrip())
+            body = node[-1][lead:]
+            k = body.index("  ")
+            inside = node[-1][:lead] + body[:k] + " #- in -# " + body[k + 2:]
+            for tail in ("", "# t", "#- t -#", " # t"):
+                out.append((f"skip:{name}/inside", "\n".join(pre + [ind + "#[fmt:skip]"] + node[:-1] + [inside + tail] + post) + "\n"))
+        # the same node WITHOUT the directive but with the glued comments (comment glue on every node kind)
+        for cm in SKIP_COMMENTS[:2]:
+            for glue in ("", "\t"):
+                out.append((f"noskip:{name}/after", "\n".join(pre + node[:-1] + [node[-1] + glue + cm] + post) + "\n"))
+    return out
 
 
 def slice_sources(rng, n):
@@ -378,6 +462,22 @@ def run(tier, seed):
         if len(text) < 4000:
             for m in mutants(rng, text, 2 if quick else 12):
                 add_prog("mutant:" + origin, m, False, 1 if quick else 3, 1)
+    # 7. comment glue (0 / 1 / 3 spaces / tab before a comment, 0 / 1 after an inline one) on everything that has comments
+    glued = 0
+    for origin, text in [(f"snippet:{i}", sn) for i, sn in enumerate(SNIPPETS)] + repo:
+        for g in glue_variants(text, rng, 1 if quick else 4):
+            add_one("glue:" + origin, g, False, 1 if quick else 4)
+            glued += 1
+    for pi in range(30 if quick else 300):
+        prog = G.gen_program(rng, 3 + rng.below(5))
+        text = G.text_of(G.render(prog, G.Layout(rng, ("comments", "inline_comments", "trailing", "blank"))))
+        for g in glue_variants(text, rng, 2 if quick else 6):
+            add_one(f"glue:generated{pi}", g, True, 1 if quick else 3)
+    # 8. #[fmt:skip] on every node kind x adjacent comments
+    for origin, text in skip_family(quick, rng):
+        add_one(origin, text, True, 1 if quick else 6)
+        if not quick:
+            add_one("eol-crlf:" + origin, text.replace("\n", "\r\n"), True, 1)
     # 6. number literals and comments on later lines, in every line-ending convention (runnable)
     for i, src in enumerate(slice_sources(rng, 40 if quick else 400)):
         add_one(f"slice-src:{i}", src, True, 1 if quick else 4)
@@ -394,6 +494,7 @@ def run(tier, seed):
     parsed = {}
     cosmetic = 0
     clean = 0
+    clean_by = {}
     masked = {}
     for c, m, r in zip(cases, meta, res):
         k = m["origin"].split(":")[0]
@@ -410,6 +511,7 @@ def run(tier, seed):
         fs = judge(r, m["runnable"])
         if not fs:
             clean += 1
+            clean_by[k] = clean_by.get(k, 0) + 1
             continue
         kc = known_classes(r, c["src"])
         if kc:
@@ -424,6 +526,7 @@ def run(tier, seed):
                                       "predicate_failed": fs}))
 
     chk.log(f"search done after {time.time() - chk.t0:.0f}s")
+    chk.log(f"clean by origin: {clean_by}")
     chk.log(f"{clean} runs satisfy every clause; failing runs inside known classes: {masked}")
     # ---- R: format-option model and slice model vs the real crates
     disagreements = []
@@ -475,7 +578,7 @@ def run(tier, seed):
                     "formatter. Absence of failures of the renderer is NOT shown.",
         trusted_base=tb,
         extra={"distribution": dist, "parsed_by_origin": parsed, "cosmetic_only_differences": cosmetic,
-               "runs_satisfying_every_clause": clean, "failing_runs_inside_known_classes": masked,
+               "runs_satisfying_every_clause": clean, "clean_by_origin": clean_by, "failing_runs_inside_known_classes": masked,
                "exhaustive": False, "model_impl_disagreements": len(disagreements)})
 
 
